@@ -157,9 +157,10 @@ def _star_lines(out, cfg, tag, workers=8, timeout=1800):
 
 
 def _star_secrecy(out, cfg):
-    """State-independent secrecy invariants (knowledge closure) — TLC evaluates them at start-up."""
-    res = run_tlc("MC_Star", cfg, workers=2, timeout=600, tag="secrecy")
-    out.add_tlc(res, "MC_Star/" + cfg)
+    """Secrecy invariants (knowledge closure) on every observation set reachable by the eavesdropper."""
+    cfg = {"Star_secrecy.cfg": "Secrecy_q.cfg", "Star_secrecy_t.cfg": "Secrecy_t.cfg"}.get(cfg, cfg)
+    res = run_tlc("MC_Secrecy", cfg, workers=4, timeout=600, tag="secrecy")
+    out.add_tlc(res, "MC_Secrecy/" + cfg)
 
 
 def _recover_family(out, pid, cfgs, seed, vals, stride=1):
@@ -354,4 +355,58 @@ def c06(tier, seed):
                    lambda k, tr: ["shamir-record", "--out", tr, "--seed", seed + k, "--deals", 16 if thorough else 10,
                                   "--maxt", 96 if (thorough and k == 0) else (40 if thorough else 24), "--big", 1 if k == 0 else 0],
                    8 if thorough else 2, "Shamir dealing/recovery log")
+    return out
+
+
+def _expect_spec_violation(out, module, cfg, what):
+    """Vacuity control: a deliberately broken configuration of the specification must be refuted by TLC."""
+    res = run_tlc(module, cfg, workers=2, timeout=600, tag="neg-" + cfg[:-4])
+    if not res.violation:
+        raise ToolError(f"{module}/{cfg} was expected to violate {what} but TLC accepted it (vacuous model?)")
+    out.extra.setdefault("negative_models_refuted", []).append({"model": f"{module}/{cfg}", "refutes": what})
+
+
+@check("C03")
+def c03(tier, seed):
+    out = Outcome("C03", tier, seed, "model_checking")
+    thorough = tier == "thorough"
+    out.rule = ("TLC evaluates the adversary-knowledge closure (rules: interpolate with >= t points, open C/D with the sharing "
+                "key, derive the payload key, open the payload, XOR of two payload ciphertexts under equal key and nonce) over "
+                "every observation subset of the client population: no associated data and no payload XOR is derivable below "
+                "threshold (NoXorLeak, SubThresholdSecrecy); the constant-nonce configuration is refuted by TLC (negative "
+                "model).  On the real code, for sequences of 2-3 sub-threshold reports of one measurement with associated data "
+                "of 1 B .. 3 cipher blocks: not in clear, every 16/32-byte window of the report tried as key, and "
+                "ct1 xor ct2 != pt1 xor pt2 on every 16-byte window containing a differing byte; distinct = report x check kind")
+    out.assumptions = [STAR_ASSUME, "the XOR test has false-alarm probability 2^-128 per window"]
+    _star_secrecy(out, "Star_secrecy_t.cfg")
+    _star_secrecy(out, "Star_secrecy.cfg")
+    _expect_spec_violation(out, "MC_Secrecy", "Secrecy_legacy.cfg", "NoXorLeak with a constant cipher nonce")
+    for k in range(4 if thorough else 1):
+        out.add_vh(run_vh(["cipher-check", "--seed", seed + k, "--groups", 60 if thorough else 16], timeout=3000), only={"C03"})
+    return out
+
+
+@check("C04")
+def c04(tier, seed):
+    out = Outcome("C04", tier, seed, "model_checking")
+    thorough = tier == "thorough"
+    out.rule = ("TLC enumerates all 147 triples over strings of length <= 2 on a two-symbol alphabet x 3 thresholds (all "
+                "10 731 pairs, including the 132 boundary-shifted pairs with equal m||e) and checks that the framed transcript "
+                "is injective while the unframed one is refuted (negative model); every triple is executed under several "
+                "byte valuations x threshold maps (one-bit-apart and byte-shifted u32s) with independent clients and "
+                "differing associated data; the equality pattern of randomness / tag / key bytes must equal the model's; "
+                "share points pairwise distinct; shares of one triple combine; distinct = (valuation, threshold map, triple)")
+    out.assumptions = [STAR_ASSUME, "all-pairs distinctness is decided through hash maps over the 147 values per sort"]
+    res = run_tlc("MC_Derive", "Derive.cfg", workers=1, timeout=900, tags=("DERIVE", "SHIFTPAIRS"), tag="C04-derive")
+    out.add_tlc(res, "MC_Derive/Derive.cfg")
+    out.extra["boundary_shifted_pairs_in_model"] = (res.lines.get("SHIFTPAIRS") or [{"n": 0}])[0]["n"]
+    _expect_spec_violation(out, "MC_Derive", "Derive_unframed.cfg", "Injective for an unframed transcript")
+    if res.ok:
+        wd = workdir("C04-lines")
+        lp = os.path.join(wd, "derive.ndjson")
+        write_ndjson(lp, res.lines.get("DERIVE", []))
+        if len(res.lines.get("DERIVE", [])) < 100:
+            raise ToolError("MC_Derive emitted too few triples")
+        out.add_vh(run_vh(["derive-replay", "--lines", lp, "--seed", seed, "--vals", 8 if thorough else 4,
+                           "--thrmaps", 5 if thorough else 4, "--clients", 16 if thorough else 3], timeout=3000), only={"C04"})
     return out
